@@ -44,6 +44,80 @@ def Edit.Interior (e : Edit) (k n : Nat) : Prop := k ≤ e.pos ∧ e.pos + 2 * k
 def CheckOf (w : List Char) (chk : Option (List Char)) : Prop :=
   chk = none ∨ ∃ m c, 1 ≤ m ∧ setVt w m = .ok c ∧ chk = some c
 
+/-- the substitution case of `C08_single`, with or without indel handling. -/
+theorem C08_single_subst_only (k : Nat) (s : Mask) (v : Nat) (w : List Char) (p : Nat) (x : Char)
+    (chk : Option (List Char)) (heap : Nat) (indel : Bool) (hk : 1 ≤ k) (hs : s.size = 4 ^ k)
+    (hv : s.getD v false = true)
+    (hw : isWalk (inducedAccessor k s) v w = true) (he : (Edit.subst p x).Interior k w.length)
+    (hp : (Edit.subst p x).Proper w) (hc : CheckOf w chk) (hheap : 9 * k ≤ heap)
+    (hbad : isWalk (inducedAccessor k s) v ((Edit.subst p x).apply w) = false) :
+    ∃ cands st, repairDna (inducedAccessor k s) ((Edit.subst p x).apply w) v k chk indel heap = .ok (cands, st) ∧
+      st.detected = 1 ∧ w ∈ cands := by
+  have hchk := RepairEdit.vtMatches_of_check w chk hc
+  obtain ⟨hke, hen⟩ := he
+  simp only [Edit.pos] at hke hen
+  obtain ⟨hx, hne⟩ := hp
+  have hpn : p < w.length := by omega
+  have ew : w.take p ++ [w[p]] ++ w.drop (p + 1) = w := by simp
+  have ec : (Edit.subst p x).apply w = w.take p ++ x :: w.drop (p + 1) := by
+    simp [Edit.apply, List.set_eq_take_append_cons_drop, hpn]
+  rw [ec] at hbad ⊢
+  have hxy : w[p] ≠ x := by
+    intro h; apply hne; rw [List.getElem?_eq_getElem hpn, h]
+  have := RepairEdit.single_core k s v (w.take p) [w[p]] (w.drop (p + 1)) x chk heap indel hk hs hv
+    (by rw [ew]; exact hw) (Or.inl ⟨w[p], rfl, hxy⟩) hx (by simp; omega) (by simp; omega)
+    (by rw [ew]; exact hchk) hheap hbad
+  rw [ew] at this; exact this
+
+/-- the insertion case of `C08_single`. -/
+theorem C08_single_ins (k : Nat) (s : Mask) (v : Nat) (w : List Char) (p : Nat) (x : Char)
+    (chk : Option (List Char)) (heap : Nat) (hk : 1 ≤ k) (hs : s.size = 4 ^ k)
+    (hv : s.getD v false = true)
+    (hw : isWalk (inducedAccessor k s) v w = true) (he : (Edit.ins p x).Interior k w.length)
+    (hp : (Edit.ins p x).Proper w) (hc : CheckOf w chk) (hheap : 9 * k ≤ heap)
+    (hbad : isWalk (inducedAccessor k s) v ((Edit.ins p x).apply w) = false) :
+    ∃ cands st, repairDna (inducedAccessor k s) ((Edit.ins p x).apply w) v k chk true heap = .ok (cands, st) ∧
+      st.detected = 1 ∧ w ∈ cands := by
+  have hchk := RepairEdit.vtMatches_of_check w chk hc
+  obtain ⟨hke, hen⟩ := he
+  simp only [Edit.pos] at hke hen
+  have ew : w.take p ++ [] ++ w.drop p = w := by simp
+  have ec : (Edit.ins p x).apply w = w.take p ++ x :: w.drop p := by simp [Edit.apply]
+  rw [ec] at hbad ⊢
+  have := RepairEdit.single_core k s v (w.take p) [] (w.drop p) x chk heap true hk hs hv
+    (by rw [ew]; exact hw) (Or.inr (Or.inl ⟨rfl, rfl⟩)) hp (by simp; omega) (by simp; omega)
+    (by rw [ew]; exact hchk) hheap hbad
+  rw [ew] at this; exact this
+
+/-- the deletion case of `C08_single`. -/
+theorem C08_single_del (k : Nat) (s : Mask) (v : Nat) (w : List Char) (p : Nat)
+    (chk : Option (List Char)) (heap : Nat) (hk : 1 ≤ k) (hs : s.size = 4 ^ k)
+    (hv : s.getD v false = true)
+    (hw : isWalk (inducedAccessor k s) v w = true) (he : (Edit.del p).Interior k w.length)
+    (hc : CheckOf w chk) (hheap : 9 * k ≤ heap)
+    (hbad : isWalk (inducedAccessor k s) v ((Edit.del p).apply w) = false) :
+    ∃ cands st, repairDna (inducedAccessor k s) ((Edit.del p).apply w) v k chk true heap = .ok (cands, st) ∧
+      st.detected = 1 ∧ w ∈ cands := by
+  have hchk := RepairEdit.vtMatches_of_check w chk hc
+  obtain ⟨hke, hen⟩ := he
+  simp only [Edit.pos] at hke hen
+  have hpn : p + 1 < w.length := by omega
+  have ed : w.drop (p + 1) = w[p + 1] :: w.drop (p + 2) := List.drop_eq_getElem_cons hpn
+  have ew : w.take p ++ [w[p], w[p + 1]] ++ w.drop (p + 2) = w := by
+    have e1 : w.drop p = w[p] :: w.drop (p + 1) := List.drop_eq_getElem_cons (by omega)
+    rw [List.append_assoc]
+    simp only [List.cons_append, List.nil_append]
+    rw [← ed, ← e1, List.take_append_drop]
+  have ec : (Edit.del p).apply w = w.take p ++ w[p + 1] :: w.drop (p + 2) := by
+    simp only [Edit.apply]
+    rw [List.eraseIdx_eq_take_drop_succ, ed]
+  rw [ec] at hbad ⊢
+  have hy : (nucIdx w[p + 1]).isSome = true := isWalk_isAcgt _ w _ hw _ (List.getElem_mem _)
+  have := RepairEdit.single_core k s v (w.take p) [w[p], w[p + 1]] (w.drop (p + 2)) w[p + 1] chk heap
+    true hk hs hv (by rw [ew]; exact hw) (Or.inr (Or.inr ⟨rfl, w[p], rfl⟩)) hy (by simp; omega)
+    (by simp; omega) (by rw [ew]; exact hchk) hheap hbad
+  rw [ew] at this; exact this
+
 /-- one interior edit, indel handling on, a heap limit of at least `9k`:
 if the corrupted strand is no longer a walk, exactly one error is detected and the original strand
 is among the candidates (also when the check of the original is supplied). Together with
@@ -56,7 +130,10 @@ theorem C08_single (k : Nat) (s : Mask) (v : Nat) (w : List Char) (e : Edit) (ch
     (hbad : isWalk (inducedAccessor k s) v (e.apply w) = false) :
     ∃ cands st, repairDna (inducedAccessor k s) (e.apply w) v k chk true heap = .ok (cands, st) ∧
       st.detected = 1 ∧ w ∈ cands := by
-  sorry
+  cases e with
+  | subst p x => exact C08_single_subst_only k s v w p x chk heap true hk hs hv hw he hp hc hheap hbad
+  | ins p x => exact C08_single_ins k s v w p x chk heap hk hs hv hw he hp hc hheap hbad
+  | del p => exact C08_single_del k s v w p chk heap hk hs hv hw he hc hheap hbad
 
 /-- with substitutions only the same holds with indel handling off. -/
 theorem C08_single_subst (k : Nat) (s : Mask) (v : Nat) (w : List Char) (p : Nat) (x : Char)
@@ -65,8 +142,8 @@ theorem C08_single_subst (k : Nat) (s : Mask) (v : Nat) (w : List Char) (p : Nat
     (hp : (Edit.subst p x).Proper w) (hc : CheckOf w chk) (hheap : 9 * k ≤ heap)
     (hbad : isWalk (inducedAccessor k s) v ((Edit.subst p x).apply w) = false) :
     ∃ cands st, repairDna (inducedAccessor k s) ((Edit.subst p x).apply w) v k chk false heap = .ok (cands, st) ∧
-      st.detected = 1 ∧ w ∈ cands := by
-  sorry
+      st.detected = 1 ∧ w ∈ cands :=
+  C08_single_subst_only k s v w p x chk heap false hk hs hv hw he hp hc hheap hbad
 
 /-- positions increasing with gaps of at least `3k + 2`. -/
 def Spaced (k : Nat) : List Edit → Prop
